@@ -222,7 +222,6 @@ func vC35Path(r *vRand, suffixes []string, class *string) string {
 
 func vC35Port(k int) int { return 30000 + (os.Getpid()%250)*100 + k }
 
-
 var _ = net.Dial
 var _ = bufio.NewReader
 
